@@ -10,7 +10,8 @@ From Coq Require Import List String Bool Arith Permutation.
 Import ListNotations.
 Require Import Naga.State.Tie Naga.State.Reset Naga.State.History Naga.State.Schedule Naga.State.MapOrder.
 Require Import Naga.State.GenObligations Naga.State.Instance.
-Require Import Naga.Gen.BackendState Naga.Gen.MapWalks.
+Require Import Naga.State.CloneFrame Naga.State.CloneObligations.
+Require Import Naga.Gen.BackendState Naga.Gen.MapWalks Naga.Gen.CloneRegions.
 
 (* every mutable field is cleared  ==>  reset s = reset s' whenever s, s' have the same configuration *)
 Theorem c12_reset_canonical :
@@ -126,6 +127,58 @@ Theorem c12_fold_comm_idem_perm_invariant :
 Proof. exact fold_comm_idem_perm_invariant. Qed.
 Print Assumptions c12_fold_comm_idem_perm_invariant.
 
+(* ---- operations that take pipeline constants: they write a shallow CLONE of the caller's module ---- *)
+
+(* every region the override-resolution pass writes is re-allocated by the clone  ==>  the caller's module is unchanged *)
+Theorem c12_clone_frame :
+  forall (value : Type) (copied : region -> bool) (p : @pass value) (o : @store value),
+  (forall r, In r (writes p) -> copied r = true) ->
+  forall r, fst (run_pass copied p (clone o)) r = o r.
+Proof. exact @clone_frame_caller. Qed.
+Print Assumptions c12_clone_frame.
+
+(* what the back end sees after the pass (hence its output) is the pass run in place on a private full copy,
+   whichever regions were copied: a missing copy damages the caller, not this compilation (why tests pass) *)
+Theorem c12_clone_view_independent :
+  forall (value : Type) (copied : region -> bool) (p : @pass value), extensional p ->
+  forall s r, view copied (run_pass copied p s) r = run_in_place p (view copied s) r.
+Proof. exact @clone_view_independent. Qed.
+Print Assumptions c12_clone_view_independent.
+
+(* the hypothesis is necessary *)
+Theorem c12_clone_frame_needed :
+  forall (value : Type) (copied : region -> bool) (o : @store value) (r : region) (v : value),
+  copied r = false -> v <> o r -> fst (run_pass copied [(r, fun _ => v)] (clone o)) r <> o r.
+Proof. exact @clone_frame_needed. Qed.
+Print Assumptions c12_clone_frame_needed.
+
+(* msl.Compile with Options.PipelineConstants, instantiated with the regions applyPipelineConstants re-allocates as
+   regenerated from /repo on this run: any history of such operations leaves the module equal and each yields its
+   run-alone output (PARTIAL: the written regions are the reviewed list state/clone_writes.txt, not extracted) *)
+Theorem c12_msl_pipeline_constants_history_partial :
+  forall (value output : Type) (emit : @store value -> output) (ops : list (@pass value)),
+  Forall (fun p => forall r, In r (writes p) -> In r (clone_sound_writes msl_clone_writes msl_clone_known)) ops ->
+  forall o,
+  fst (run_backends _ _ _ (msl_pc_call emit) o ops) = o /\
+  snd (run_backends _ _ _ (msl_pc_call emit) o ops) = map (fun p => snd (msl_pc_call emit p o)) ops.
+Proof. exact @msl_pipeline_constants_history. Qed.
+Print Assumptions c12_msl_pipeline_constants_history_partial.
+
+(* ir.CloneModuleForOverrides + ir.ProcessOverrides (= glsl.Compile with PipelineConstants): frame only for passes that
+   stay off the regions recorded as findings (nested blocks, call arguments, statement pointees are shared AND written) *)
+Theorem c12_ir_process_overrides_frame_partial :
+  forall (value : Type) (p : @pass value) (o : @store value),
+  (forall r, In r (writes p) -> In r (clone_sound_writes ir_clone_writes ir_clone_known)) ->
+  forall r, fst (run_pass (fun x => mem x ir_clone_copied) p (clone o)) r = o r.
+Proof. exact @ir_process_overrides_frame_partial. Qed.
+Print Assumptions c12_ir_process_overrides_frame_partial.
+
+(* the shape of the defect of the pinned tree: top-level Body copied, nested block shared, both renumbered *)
+Theorem c12_shallow_clone_frame_refuted :
+  exists o : @store nat, fst (run_pass shallow_copied renumber (clone o)) "Body.nested" <> o "Body.nested".
+Proof. exact shallow_clone_frame_refuted. Qed.
+Print Assumptions c12_shallow_clone_frame_refuted.
+
 (* ---- non-vacuity: the hypotheses are satisfiable by concrete, non-trivial instances ---- *)
 
 (* a Backend state over exactly the extracted fields; a body that counts compilations in a
@@ -166,3 +219,16 @@ Example c12_example_sorted_walk :
   isort nat Nat.leb [42; 7; 19; 3] = isort nat Nat.leb [3; 19; 42; 7] /\ isort nat Nat.leb [42; 7; 19; 3] = [3; 7; 19; 42].
 Proof. vm_compute. split; reflexivity. Qed.
 
+
+(* a pass that resolves an override in the regions msl applyPipelineConstants re-allocates: the caller's
+   GlobalExpressions keep the default (2) while the clone's view carries the pipeline value (7) *)
+Example c12_example_msl_pipeline_constants :
+  let p : @pass nat := [("GlobalExpressions", fun _ => 7); ("Functions", fun v => v "GlobalExpressions" + 1)] in
+  let o : @store nat := fun _ => 2 in
+  (forall r, In r (writes p) -> In r (clone_sound_writes msl_clone_writes msl_clone_known)) /\
+  fst (run_pass (fun x => mem x msl_clone_copied) p (clone o)) "GlobalExpressions" = 2 /\
+  view (fun x => mem x msl_clone_copied) (run_pass (fun x => mem x msl_clone_copied) p (clone o)) "Functions" = 8.
+Proof.
+  split; [|vm_compute; split; reflexivity].
+  intros r Hr. simpl in Hr. destruct Hr as [H|[H|[]]]; subst r; vm_compute; tauto.
+Qed.
